@@ -54,6 +54,10 @@ class PyReader:
     def _imports(self, module: str, name: str) -> bool:
         return any(isinstance(s, ast.ImportFrom) and s.module == module and any(a.name == name and a.asname is None for a in s.names) for s in self.module.body)
 
+    def global_value(self, n: ast.AST):
+        """hook: value of a module-level name / attribute chain (None = not known)"""
+        return None
+
     def fail(self, n: ast.AST, why: str):
         raise AnalysisError(f"abstract evaluation ({self.where}): `{norm(n, 70)}` at line {getattr(n, 'lineno', '?')}: {why}")
 
@@ -157,6 +161,9 @@ class PyReader:
         if isinstance(n, ast.Name):
             if n.id in env:
                 return env[n.id]
+            g = self.global_value(n)
+            if g is not None:
+                return g
             self.fail(n, "unbound name")
         if isinstance(n, ast.Attribute):
             d = dotted(n)
@@ -166,6 +173,9 @@ class PyReader:
                 return num(1)
             if d and d.startswith("CoordinateSystem.System.") and d.split(".")[-1] in KINDS:
                 return ("kind", d.split(".")[-1])
+            g = self.global_value(n)
+            if g is not None:
+                return g
             base = self.ev(n.value, env, fns)
             if isinstance(base, VVal):
                 if n.attr in ("components", "_components"):
